@@ -406,6 +406,21 @@ impl ConnectionPool {
                             }
                         }
 
+                        // The totals of a server are its own, not the pool object's: when the pool is
+                        // rebuilt they go on counting for the servers that were in it before.
+                        let stats = old_pool_ref
+                            .as_ref()
+                            .and_then(|old_pool| {
+                                old_pool.addresses.iter().flatten().find(|old| {
+                                    old.host == server.host
+                                        && old.port == server.port
+                                        && old.database == shard.database
+                                        && old.shard.to_string() == *shard_idx
+                                })
+                            })
+                            .map(|old| old.stats.clone())
+                            .unwrap_or_default();
+
                         let address = Address {
                             id: address_id,
                             database: shard.database.clone(),
@@ -418,7 +433,7 @@ impl ConnectionPool {
                             username: user.username.clone(),
                             pool_name: pool_name.clone(),
                             mirrors: mirror_addresses,
-                            stats: Arc::new(AddressStats::default()),
+                            stats,
                             error_count: Arc::new(AtomicU64::new(0)),
                         };
 
